@@ -339,7 +339,7 @@ def _matrix(acc, job):
     _conc_ok(acc, "valid_input_accepted", lambda: fn(valid), f"matrix:{ep}:negative_control", {"entry": ep})
     for arg in args:
         for container in CONTAINERS[arg]:
-            for delta in (-2, -1, 1, 2):
+            for delta in (-3, -2, -1, 1, 2):  # -3 leaves a single element (numpy would broadcast it silently)
                 a = _build(base, args, arg, container, delta)
                 _conc(acc, "length_mismatch_raises", lambda a=a: fn(a), f"matrix:{ep}:{arg}:length", {"entry": ep, "arg": arg, "container": container, "delta": delta})
             ok = _build(base, args, arg, container, 0)
